@@ -6,6 +6,7 @@ package hx
 
 import (
 	"bytes"
+	"crypto/sha256"
 	"encoding/hex"
 	"errors"
 	"fmt"
@@ -45,9 +46,14 @@ type NOp struct {
 	// TxMut (peer, adversarial): the first generated transaction of the block is changed after it was built:
 	// "autogen" (plain transfer only: Autogen flag set, signatures removed), "nosig" (signatures removed),
 	// "othersig" (signed by another key whose public key is stated), txid recomputed each time
-	TxMut string   `json:"txmut,omitempty"`
-	Old   []string `json:"old,omitempty"`   // peer: txids (hex) of already confirmed transactions to re-include
-	TxsAt *int     `json:"txsat,omitempty"` // peer: assemble the block's transactions against the state after this block (adversarial)
+	TxMut string `json:"txmut,omitempty"`
+	// TreeLeaf (peer, adversarial): the block's body, merkle root, id and signature are untouched, but the merkle tree
+	// it carries (from whose leaves the ledger rebuilds the body on every later read) names other transactions:
+	// 1 = the last leaf is an id nobody knows, 2 = the last two leaves are swapped, 3 = the last leaf is the id of the
+	// parent's award transaction. The block must be refused (it is not what its root commits to)
+	TreeLeaf int      `json:"treeleaf,omitempty"`
+	Old      []string `json:"old,omitempty"`   // peer: txids (hex) of already confirmed transactions to re-include
+	TxsAt    *int     `json:"txsat,omitempty"` // peer: assemble the block's transactions against the state after this block (adversarial)
 }
 
 // NodeMachine couples a real node with the reference model.
@@ -632,6 +638,28 @@ func (nm *NodeMachine) Apply(op NOp) error {
 		}
 		if op.AwardAdd != 0 {
 			return fmt.Errorf("IsValidTx accepts block %s whose award differs from CalcAward(%d) by %d", op.Label, height, op.AwardAdd)
+		}
+		if op.TreeLeaf > 0 && len(blk.Transactions) >= 2 && len(blk.MerkleTree) >= len(blk.Transactions) {
+			nt := len(blk.Transactions)
+			tree := append([][]byte{}, blk.MerkleTree...)
+			switch op.TreeLeaf {
+			case 1:
+				h := sha256.Sum256(append([]byte("nobody-knows-"), tree[nt-1]...))
+				tree[nt-1] = h[:]
+			case 2:
+				tree[nt-1], tree[nt-2] = tree[nt-2], tree[nt-1]
+			default:
+				if parent >= 0 && len(nm.BlockTxs[parent]) > 0 {
+					tree[nt-1] = nm.BlockTxs[parent][0].Txid
+				}
+			}
+			blk.MerkleTree = tree
+			if ok, _ := n.Ledger.VerifyBlock(blk, ""); ok {
+				return fmt.Errorf("VerifyBlock accepts block %s whose carried merkle tree names other transactions than its body (the ledger rebuilds the body from these leaves)", op.Label)
+			}
+			nm.LastOutcome = "forbidden"
+			nm.Stat["peer-forbidden-tree-leaves"]++
+			return nil
 		}
 		if ok, _ := n.Ledger.VerifyBlock(blk, ""); !ok {
 			return fmt.Errorf("VerifyBlock refuses block %s formatted by the node", op.Label)
